@@ -32,6 +32,11 @@ def work(args):
             cyc = G.polygon(3, 8)
             D = permuted_polygon(G, cyc, j // 3)
             o = impl.build(D)
+            if R.random() < 0.25:      # measures of an object that was moved in place (cached centre / plane must follow)
+                mv = tuple(F(R.randint(-9, 9)) for _ in range(3))
+                o.move(impl.Vc(mv))
+                cyc = [E.add(p, mv) for p in cyc]
+                D = ('G', [E.add(p, mv) for p in D[1]])
             apex = G.pt(3)
             obs = dict(length=impl.call(o.length), area=impl.call(o.area))
             n_ = E.polygon_normal(cyc)
@@ -51,6 +56,10 @@ def work(args):
                 faces = [[E.add(p, t) for p in f] for f in faces]
             D = G.shuffled_body(faces)       # shuffles vertex order of each face (random orientation) and the face order
             o = impl.build(D)
+            if R.random() < 0.25:
+                mv = tuple(F(R.randint(-9, 9)) for _ in range(3))
+                o.move(impl.Vc(mv))
+                D = ('B', [[E.add(p, mv) for p in f] for f in D[1]])
             obs = dict(length=impl.call(o.length), area=impl.call(o.area), volume=impl.call(o.volume), volume_fn=impl.call(impl.volume, o))
             out.append((D, None, obs))
     return out
